@@ -57,6 +57,10 @@ enum OpKind {
     CallNonCallable,
     /// v = compile_and_run(script); value_to_string(v)
     ToString,
+    /// call_exported_function(name, CallArgs::AsTuple(args))
+    CallExportedTuple,
+    /// call_exported_function(name, CallArgs::Single(args[0]))
+    CallExportedSingle,
 }
 
 #[derive(Clone, Debug, Serialize, Deserialize, PartialEq)]
@@ -191,6 +195,24 @@ fn apply_op(k: &mut Koto, kind: &OpKind, text: &str, args: &[ArgV], mod_dir: &st
             kvh::catch(|| match k.call_exported_function(text, &vals[..]) {
                 Ok(v) => format!("ok:{}", canon::value(&v)),
                 Err(e) => format!("err:{}", err_text(&e)),
+            })
+            .unwrap_or_else(|p| format!("panic:{}", p))
+        }
+        OpKind::CallExportedTuple | OpKind::CallExportedSingle => {
+            let vals: Vec<KValue> = args.iter().map(|a| a.to_value()).collect();
+            let Some(f) = k.exports().get(text) else {
+                return "err:no-such-export".into();
+            };
+            kvh::catch(|| {
+                let r = if *kind == OpKind::CallExportedTuple {
+                    k.call_function(f, CallArgs::AsTuple(&vals[..]))
+                } else {
+                    k.call_function(f, CallArgs::Single(vals.first().cloned().unwrap_or(KValue::Null)))
+                };
+                match r {
+                    Ok(v) => format!("ok:{}", canon::value(&v)),
+                    Err(e) => format!("err:{}", err_text(&e)),
+                }
             })
             .unwrap_or_else(|p| format!("panic:{}", p))
         }
@@ -561,10 +583,10 @@ const TEST_EVENTS: &str = "enter:1:0:k0 nf:3 cn:3 nr:1 ret";
 fn setup_op() -> Op {
     Op {
         kind: OpKind::Run,
-        text: "export acc = []\nexport reg = {}\nexport pf = |a, b| a * 10 + b\nexport pthrow = |x|\n  throw \"pf-boom-{x}\"\nexport plist = |x|\n  [1, x, pthrow x]\nexport pdeep = |x|\n  [1, 2, 3].fold 0, |a, y| pthrow y\nexport pgen = ||\n  yield 1\n  yield 2\n".into(),
+        text: "export acc = []\nexport reg = {}\nexport pf = |a, b| a * 10 + b\nexport pthrow = |x|\n  throw \"pf-boom-{x}\"\nexport plist = |x|\n  [1, x, pthrow x]\nexport pdeep = |x|\n  [1, 2, 3].fold 0, |a, y| pthrow y\nexport pgen = ||\n  yield 1\n  yield 2\nexport fp = |a, b| a\nexport fv = |a, b...| size b\nexport fu = |(a, b...)| a\nexport fo = |a, b = 2| (a, b)\nexport fs = |a| a\n".into(),
         ref_text: None,
         args: vec![],
-        events: "enter:0:0:k0 nf:8 ss se ex:1000 ex:1001 ex:1002 ex:1003 ex:1004 ex:1005 ex:1006 ret".into(),
+        events: "enter:0:0:k0 nf:8 ss se ex:1000 ex:1001 ex:1002 ex:1003 ex:1004 ex:1005 ex:1006 ex:1007 ex:1008 ex:1009 ex:1010 ex:1011 ret".into(),
         runs_tests: true,
         expect: "ok".into(),
         err_contains: None,
@@ -1047,13 +1069,155 @@ fn gen_recover_op(rng: &mut Rng, k: usize) -> Op {
     }
 }
 
+
+// ------------------------------------------------------------------------------------------------
+// operations whose outcome is taken from a fresh instance (the property's own reference): the
+// generator runs the operation once on a new runtime (after the setup script) and records the
+// outcome as the expectation for the long-lived instance.
+
+fn outcome_on_fresh(op: &Op, mod_dir: &str) -> String {
+    let mut k = new_instance(0);
+    let setup = setup_op();
+    let _ = apply_op(&mut k, &setup.kind, &setup.text, &setup.args, mod_dir);
+    apply_op(&mut k, &op.kind, &op.text, &op.args, mod_dir)
+}
+
+fn finish_by_fresh(mut op: Op, mod_dir: &str, ok_events: &str, err_events: &str) -> Op {
+    let out = outcome_on_fresh(&op, mod_dir);
+    let class = out.split(':').next().unwrap_or("").to_string();
+    if class == "ok" {
+        op.expect = "ok".into();
+        op.ok_value = Some(out);
+        op.ref_text = None;
+        op.events = ok_events.into();
+    } else {
+        // (a panic on a fresh instance is not a leftover-state defect; it is reported by C06 —
+        // here the operation must then behave the same on the long-lived instance)
+        op.expect = class;
+        op.err_contains = None;
+        op.ref_text = Some(if op.kind == OpKind::Run { "null".into() } else { String::new() });
+        op.events = err_events.into();
+        op.runs_tests = false;
+        op.tags.push(format!("fresh-outcome={}", out.chars().take(60).collect::<String>()));
+    }
+    op
+}
+
+const ARG_COUNTS: &[usize] = &[0, 1, 2, 3, 8, 60, 200, 240, 245, 246, 247, 248, 250, 253, 254, 255, 256, 257, 300];
+
+/// host calls with 0..300 arguments of each CallArgs kind on plain / optional / variadic /
+/// unpacked-tuple functions (wave-2 report: a 250-value AsTuple call on `|(a, b...)|` left 251
+/// registers and made the runtime unusable; repaired by ea3163c)
+fn gen_bigcall_op(rng: &mut Rng, mod_dir: &str) -> Op {
+    let f = *rng.pick(&["fp", "fv", "fu", "fo", "fs", "pf"]);
+    let n = *rng.pick(ARG_COUNTS);
+    let kind = match rng.below(3) {
+        0 => OpKind::CallExported,
+        1 => OpKind::CallExportedTuple,
+        _ => OpKind::CallExportedSingle,
+    };
+    let args: Vec<ArgV> = match kind {
+        OpKind::CallExportedSingle => vec![if rng.chance(1, 2) { ArgV::I(n as i64) } else { ArgV::S("s".into()) }],
+        _ => (0..n).map(|i| ArgV::I(i as i64)).collect(),
+    };
+    let kname = match kind {
+        OpKind::CallExported => "separate",
+        OpKind::CallExportedTuple => "as-tuple",
+        _ => "single",
+    };
+    let nargs = args.len();
+    let pre = if kind == OpKind::CallExportedTuple && f == "fu" { 1 + nargs } else { 1 };
+    let pushed = match kind {
+        OpKind::CallExported => nargs,
+        _ => 1,
+    };
+    let op = Op {
+        kind,
+        text: f.into(),
+        ref_text: None,
+        args,
+        events: String::new(),
+        runs_tests: false,
+        expect: "ok".into(),
+        err_contains: None,
+        ok_value: None,
+        residue_class: String::new(),
+        adds_tests: 0,
+        gen_check: None,
+        tags: vec!["host-call-arg-sweep".into(), format!("callargs={kname}"), format!("callee={f}"), format!("nargs={}", if nargs > 240 { ">240".to_string() } else if nargs > 8 { "9..240".to_string() } else { nargs.to_string() })],
+    };
+    finish_by_fresh(op, mod_dir, &format!("enter:{pre}:{pushed}:k{} nf:4 ret", pushed.min(250)), &format!("enter:{pre}:{pushed}:f"))
+}
+
+const NATIVE_META: &[(&str, &str)] = &[
+    ("derived-ge", "a = {@<: koto.type, @==: koto.type}\na >= a"),
+    ("derived-le", "a = {@<: koto.type, @==: koto.type}\na <= a"),
+    ("derived-ne", "a = {@==: koto.type}\na != a"),
+    ("less", "a = {@<: koto.type}\na < a"),
+    ("less-failing-native", "a = {@<: number.abs}\na < a"),
+    ("greater-failing-native", "a = {@>: string.to_number}\na > 1"),
+    ("equal", "a = {@==: koto.type}\na == a"),
+    ("next-zero-arg", "a = {@next: koto.script_path}\nn = 0\nfor x in a\n  n += 1\n  if n > 3\n    break\nn"),
+    ("next-failing-native", "a = {@next: number.abs}\nn = 0\nfor x in a\n  n += 1\n  if n > 3\n    break\nn"),
+    ("next-to-tuple", "a = {@next: koto.script_path}\niterator.take(a, 2).to_tuple()"),
+    ("add", "a = {@+: koto.type}\na + 1"),
+    ("add-failing-native", "a = {@+: number.abs}\na + 1"),
+    ("add-assign", "a = {@+=: koto.type}\na += 1\na"),
+    ("negate", "a = {@negate: koto.type}\n-a"),
+    ("negate-failing-native", "a = {@negate: number.abs}\n-a"),
+    ("display", "a = {@display: koto.type}\n\"<{a}>\""),
+    ("display-failing-native", "a = {@display: number.abs}\n\"<{a}>\""),
+    ("size", "a = {@size: koto.type}\nsize a"),
+    ("index", "a = {@index: koto.type}\na[0]"),
+    ("call", "a = {@call: koto.type}\na()"),
+    ("call-failing-native", "a = {@call: number.abs}\na()"),
+    ("in-list", "a = {@<: number.abs, @==: koto.type}\n[1, \"x{a >= a}\"]"),
+    ("sort", "a = {@<: koto.type}\n[a, a, a].sort()\n1"),
+];
+
+/// native functions under meta keys (wave-2 report: native @< with a derived comparison ended with
+/// 'empty call stack' and leaked 6 registers per run; native zero-arg @next panicked; repaired by
+/// a04388e)
+fn gen_native_meta_op(rng: &mut Rng, k: usize, mod_dir: &str) -> Op {
+    let (name, script) = NATIVE_META[rng.below(NATIVE_META.len())];
+    let caught = rng.chance(1, 3);
+    let text = if caught {
+        let mut lines: Vec<&str> = script.lines().collect();
+        let last = lines.pop().unwrap_or("null");
+        format!("{}\nr_{k} = try\n  {last}\ncatch e\n  'caught'\nr_{k}\n", lines.join("\n"))
+    } else {
+        format!("{script}\n")
+    };
+    let op = Op {
+        kind: OpKind::Run,
+        text,
+        ref_text: None,
+        args: vec![],
+        events: String::new(),
+        runs_tests: true,
+        expect: "ok".into(),
+        err_contains: None,
+        ok_value: None,
+        residue_class: String::new(),
+        adds_tests: 0,
+        gen_check: None,
+        tags: vec!["native-function-under-meta-key".into(), format!("meta={name}"), format!("catch={}", if caught { "yes" } else { "no" })],
+    };
+    finish_by_fresh(
+        op,
+        mod_dir,
+        if caught { "enter:0:0:k0 nf:8 ts:1:90 eop:3:1:n nr:1 te ret" } else { "enter:0:0:k0 nf:8 eop:3:1:n nr:1 ret" },
+        "enter:0:0:k0 nf:8 eop:3:1:n nr:0",
+    )
+}
+
 fn gen_history(rng: &mut Rng, mod_dir: &str, max_native_err: usize) -> History {
     let n = 5 + rng.below(36);
     let mut ops = vec![setup_op()];
     let mut native_err = 0;
     let mut live: Vec<LiveGen> = vec![];
     for k in 1..=n {
-        let op = match rng.weighted(&[48, 24, 8, 7, if live.is_empty() { 0 } else { 7 }, 6]) {
+        let op = match rng.weighted(&[42, 20, 7, 7, if live.is_empty() { 0 } else { 7 }, 5, 7, 7]) {
             0 => gen_run_op(rng, k, true),
             1 => gen_call_op(rng, k),
             2 => gen_tostring_op(rng, k),
@@ -1069,7 +1233,9 @@ fn gen_history(rng: &mut Rng, mod_dir: &str, max_native_err: usize) -> History {
                 let lg = live[rng.below(live.len())].clone();
                 gen_next_op(rng, &lg)
             }
-            _ => gen_recover_op(rng, k),
+            5 => gen_recover_op(rng, k),
+            6 => gen_bigcall_op(rng, mod_dir),
+            _ => gen_native_meta_op(rng, k, mod_dir),
         };
         // generation filter (F-C07-1): keep the accumulated register residue far from the u8 wrap
         // (only relevant while F-C07-1 is open; `max_native_err` is usize::MAX once it is fixed)
@@ -1878,6 +2044,39 @@ fn main() {
         }
         let h = History { ops, limit_ms: 0, mod_dir: mod_dir_s.clone() };
         cx.run_history(&h, false, "sweep:imports");
+    }
+
+    // 1x. native functions under meta keys: every shape, uncaught and caught, repeated (the leak
+    //     reported by wave 2 accumulated per run), each followed by probes when it fails
+    {
+        let mut ops = vec![setup_op()];
+        let mut r = Rng::new(11);
+        for round in 0..3 {
+            for _ in 0..(2 * NATIVE_META.len()) {
+                let mut op = gen_native_meta_op(&mut r, 800 + ops.len(), &mod_dir_s);
+                op.tags.push(format!("round={round}"));
+                ops.push(op);
+            }
+        }
+        let h = History { ops, limit_ms: 0, mod_dir: mod_dir_s.clone() };
+        cx.run_history(&h, false, "sweep:native-function-under-meta-key");
+    }
+
+    // 1y. host calls with 0..300 arguments x CallArgs kind x callee shape, interleaved with normal use
+    {
+        let mut r = Rng::new(13);
+        for part in 0..3 {
+            let mut ops = vec![setup_op()];
+            for i in 0..70 {
+                ops.push(gen_bigcall_op(&mut r, &mod_dir_s));
+                if i % 5 == 4 {
+                    ops.push(gen_call_op(&mut r, i));
+                    ops.push(gen_run_op(&mut r, 900 + i, false));
+                }
+            }
+            let h = History { ops, limit_ms: 0, mod_dir: mod_dir_s.clone() };
+            cx.run_history(&h, false, &format!("sweep:host-call-arg-sweep{part}"));
+        }
     }
 
     // 1z. callee recovers inside the caller's builders: 40 instances
